@@ -120,9 +120,13 @@ def check_case(case):
     for mode in ('energy', 'amplitude'):
         exp2, exp1 = brute(f, a, edges, mode)
         try:
-            dense = hilberthuang(f.copy(), a.copy(), edges.copy(), mode=mode)
-            sp = hilberthuang(f.copy(), a.copy(), edges.copy(), mode=mode, return_sparse=True)
-            one = hilberthuang_1d(f.copy(), a.copy(), edges.copy(), mode=mode)
+            # the same array objects for all three calls, as a user would do: none of them may be altered
+            f_, a_, e_ = f.copy(), a.copy(), edges.copy()
+            one = hilberthuang_1d(f_, a_, e_, mode=mode)
+            dense = hilberthuang(f_, a_, e_, mode=mode)
+            sp = hilberthuang(f_, a_, e_, mode=mode, return_sparse=True)
+            if not (np.array_equal(f_, f) and np.array_equal(a_, a) and np.array_equal(e_, edges)):
+                viols.append(('input-modified', '%s mode=%s: an input array was changed by a call' % (describe(case), mode)))
         except Exception as e:
             viols.append(('raise:%s' % type(e).__name__, '%s raised %r' % (describe(case), e)))
             continue
